@@ -12,6 +12,15 @@ theorem pres_stObj {s s' : St} {a : Act} (hI : Inv s) (h : step .repaired s a = 
   | fire t0 =>
     simp only [step] at h
     (repeat' (split at h)) <;> (try cases h) <;> (simp only [St.setPc, St.setObj]; (have i_stObj := hI.stObj; have i_putDir := hI.putDir; have i_refs := hI.refs; grind [upd, PC.ref]))
+  | corrupt d =>
+    simp only [step] at h
+    (repeat' (split at h)) <;> (try cases h) <;> (simp only []; (have i_stObj := hI.stObj; have i_putDir := hI.putDir; have i_refs := hI.refs; grind [upd, PC.ref]))
+  | block d =>
+    simp only [step] at h
+    (repeat' (split at h)) <;> (try cases h) <;> (simp only []; (have i_stObj := hI.stObj; have i_putDir := hI.putDir; have i_refs := hI.refs; grind [upd, PC.ref]))
+  | repair d =>
+    simp only [step] at h
+    (repeat' (split at h)) <;> (try cases h) <;> (simp only []; (have i_stObj := hI.stObj; have i_putDir := hI.putDir; have i_refs := hI.refs; grind [upd, PC.ref]))
   | run t0 =>
     simp only [step] at h
     split at h
